@@ -162,7 +162,15 @@ func VP_C02_Corrupt() {
 			break // the file ends at the cut
 		}
 	}
-	got := vpCollect(vpOneShot(data), 8)
+	rd := vpOneShot(data)
+	if vpCaseOr("errKind", 0) == 1 && kind >= 4 && kind <= 7 {
+		// the stream breaks off at the cut with an error whose chain contains
+		// io.EOF (not io.EOF itself)
+		rd.failAt = len(data)
+		rd.failForever = true
+		rd.ferr = vpErrReadWrapsEOF
+	}
+	got := vpCollect(rd, 8)
 	vpAssert(len(got) > len(want), "the corruption is reported")
 	if len(got) > len(want) {
 		vpAssert(vpSameRecs(got[:len(want)], want), "all preceding records are delivered intact")
